@@ -546,6 +546,20 @@ func Fail(kind, msg string) {
 	s.unwind(s.cur)
 }
 
+// Finish ends the execution normally from the running thread: the harness
+// has observed everything it needs; threads still parked (a reader waiting
+// for more input, a peer) are torn down without being reported as blocked.
+func Finish() {
+	s := S
+	if s == nil || s.aborting {
+		return
+	}
+	s.aborting = true
+	s.finish()
+	<-s.cur.wake
+	s.unwind(s.cur)
+}
+
 // OnCleanup registers f to run after the execution has been torn down.
 func OnCleanup(f func()) {
 	if S != nil {
